@@ -150,7 +150,6 @@ def run_graph(ctx, n, edges, real, start, title="Tt"):
         body = "T%d" % i + "".join(edge_text(real, j) for j in outs)
         ctx.add_page("Template:t%d" % i, 10, body)
         lib["t%d" % i] = (("SEQ", [("T", "T%d" % i)] + [edge_ast(real, j) for j in outs if edge_ast(real, j) is not None]), "none")
-    type(ctx).get_page.cache_clear()
     ctx.start_page(title)
     out = []
     try:
@@ -212,7 +211,6 @@ def run_redirects(ctx, n, kinds, start, via):
     for i in range(n, 4):     # pages of an earlier, larger set
         ctx.add_page("Template:R%d" % i, 10, "stale")
     ctx.add_page("Template:viaT", 10, "<{{R%d|{{{1|}}}}}>" % start)
-    type(ctx).get_page.cache_clear()
     ctx.start_page("Tt")
     text = {"direct": "{{R%d|x}}" % start, "if": "{{#if:1|{{R%d|x}}}}" % start, "body": "{{viaT|x}}"}[via]
     try:
@@ -342,11 +340,9 @@ def work(payload, skip, report):
                 if shape == "chain":
                     for k in range(d):
                         ctx.add_page("Template:c%d" % k, 10, "c" + ("{{c%d}}" % (k + 1) if k + 1 < d else "."))
-                    type(ctx).get_page.cache_clear()
                     text, want = "{{c0}}", "c" * d + "."
                 elif shape == "literal":
                     ctx.add_page("Template:a", 10, "[{{{1|}}}]")
-                    type(ctx).get_page.cache_clear()
                     text, want = "{{a|" * d + "x" + "}}" * d, "[" * d + "x" + "]" * d
                 elif shape == "literal_pf":
                     text, want = "{{#if:1|" * d + "x" + "}}" * d, "x"
@@ -365,16 +361,13 @@ def work(payload, skip, report):
                     text, want = "{{lc:" * d + "X" + "}}" * d, "x"
                 elif shape == "named_value":
                     ctx.add_page("Template:a", 10, "[{{{1|}}}]")
-                    type(ctx).get_page.cache_clear()
                     text, want = "{{a|1=" * d + "x" + "}}" * d, "[" * d + "x" + "]" * d
                 elif shape == "arg_key":
                     # the same template nested in the KEY of its own named argument: acyclic (keys belong to the caller's frame)
                     ctx.add_page("Template:nk", 10, "k")
-                    type(ctx).get_page.cache_clear()
                     text, want = "{{nk|" * d + "z" + "=v}}" * d, "k"
                 elif shape == "second_positional":
                     ctx.add_page("Template:b", 10, "[{{{2|}}}]")
-                    type(ctx).get_page.cache_clear()
                     text, want = "{{b|z|" * d + "x" + "}}" * d, "[" * d + "x" + "]" * d
                 else:
                     text, want = "{{{p|" * d + "x" + "}}}" * d, "x"
